@@ -56,6 +56,8 @@ ApplyI(stk, st, dev, I) ==
     [] st[1] = "select_columns" -> SetTop(stk, SelectColumns(top, st[2]))
     [] st[1] = "drop_columns"   -> SetTop(stk, DropColumns(top, st[2]))
     [] st[1] = "rename"         -> SetTop(stk, Rename(top, st[2]))
+    \* map_columns({old: new, ..., deleted: None}): st[2] = <<old, new>> pairs, st[3] = deleted columns
+    [] st[1] = "map_columns"    -> SetTop(stk, Rename(DropColumns(top, st[3]), [i \in 1..Len(st[2]) |-> <<st[2][i][2], st[2][i][1]>>]))
     [] st[1] = "order_rows"     -> SetTop(stk, OrderRows(top, st[2], st[3], st[4]))
     [] st[1] = "join"           -> Append(SubSeq(stk, 1, n - 2), JoinDev(stk[n - 1], top, st[2], st[3], dev))
     [] st[1] = "joinc"          -> Append(SubSeq(stk, 1, n - 2), JoinDev(stk[n - 1], top, st[2], st[3], dev))
@@ -75,6 +77,9 @@ WellFormed(st, stk) ==
     [] st[1] = "select_columns" -> Len(st[2]) >= 1 /\ NoDup(st[2]) /\ SetOf(st[2]) \subseteq SetOf(cols)
     [] st[1] = "drop_columns"   -> NoDup(st[2]) /\ SetOf(st[2]) \subseteq SetOf(cols) /\ Len(st[2]) < Len(cols)
     [] st[1] = "rename"         -> RenameOK(st[2], cols)
+    [] st[1] = "map_columns"    -> /\ NoDup(st[3]) /\ SetOf(st[3]) \subseteq SetOf(cols) /\ Len(st[3]) < Len(cols)
+                                   /\ \A i \in 1..Len(st[2]) : ~Has(st[3], st[2][i][1])
+                                   /\ RenameOK([i \in 1..Len(st[2]) |-> <<st[2][i][2], st[2][i][1]>>], Without(cols, st[3]))
     [] st[1] = "order_rows"     -> NoDup(st[2]) /\ SetOf(st[2]) \subseteq SetOf(cols) /\ SetOf(st[3]) \subseteq SetOf(st[2])
     [] st[1] = "join"           -> n >= 2 /\ JoinOK(st[2], st[3], stk[n - 1].cols, cols)
     \* joinc = natural_join(..., check_all_common_keys_in_equi_spec=True)
@@ -147,6 +152,10 @@ DepApply(dstk, st) ==
     [] st[1] = "drop_columns"   -> SetTop(dstk, [top EXCEPT !.c = [x \in DOMAIN top.c \ SetOf(st[2]) |-> top.c[x]]])
     [] st[1] = "rename" ->
          SetTop(dstk, [top EXCEPT !.c = [x \in {NewName(st[2], y) : y \in DOMAIN top.c} |-> top.c[OldName(st[2], x)]]])
+    [] st[1] = "map_columns" ->
+         LET keep == DOMAIN top.c \ SetOf(st[3])
+             rn == [i \in 1..Len(st[2]) |-> <<st[2][i][2], st[2][i][1]>>] IN
+         SetTop(dstk, [top EXCEPT !.c = [x \in {NewName(rn, y) : y \in keep} |-> top.c[OldName(rn, x)]]])
     [] st[1] = "order_rows"     -> SetTop(dstk, [top EXCEPT !.r = @ \cup ColsDeps(top, SetOf(st[2]))])
     [] st[1] \in {"join", "joinc"} ->
          LET L == dstk[n - 1] R == top on == st[3]
@@ -260,6 +269,7 @@ LastT == IF Len(prog) = 0 THEN {}
          ELSE LET st == prog[Len(prog)] IN
               IF st[1] \in {"extend", "wextend", "project"} THEN {st[2][i][1] : i \in 1..Len(st[2])}
               ELSE IF st[1] = "rename" THEN {st[2][i][1] : i \in 1..Len(st[2])}
+              ELSE IF st[1] = "map_columns" THEN {st[2][i][2] : i \in 1..Len(st[2])}
               ELSE {}
 HasT(q) == \E i \in 1..Len(q) : q[i] \in LastT
 ExprT(e) == ColsOfE(e) \cap LastT # {}
@@ -366,7 +376,10 @@ ColumnSteps(cols) ==
         ELSE {<<"rename", <<<<q[1], q[2]>>>>>> :
                  q \in Samp(2, {r \in {"x2", "h2"} \X SetOf(cols) : Kind[r[1]] = Kind[r[2]]})}
              \cup {<<"rename", <<<<p[1], p[2]>>, <<p[2], p[1]>>>>>> :
-                      p \in Samp(1, {q \in Pairs(SetOf(cols)) : Kind[q[1]] = Kind[q[2]]})})
+                      p \in Samp(1, {q \in Pairs(SetOf(cols)) : Kind[q[1]] = Kind[q[2]]})}
+             \cup {<<"map_columns", <<<<q[2], q[1]>>>>, d>> :
+                      q \in Samp(2, {r \in {"x2", "h2"} \X SetOf(cols) : Kind[r[1]] = Kind[r[2]]}),
+                      d \in Samp(2, {<<>>} \cup {<<c>> : c \in SetOf(cols)})})
 OrderSteps(cols) ==
   LET KC == KeyCols(cols) IN
   {<<"order_rows", k, r, lim>> : k \in Bias(2, KeyLists(KC, Level) \ {<<>>}, HasT),
